@@ -481,4 +481,181 @@ theorem initDeclarator_ok (it : IDc) (hwf : WFI it) (s : PState) (stop : Tk) (re
     simp only [pInitDeclarator, DeclSkel.bnd, h1, hnn, Bool.false_eq_true, ↓reduceIte, DeclSkel.pur, h2, Option.isSome_some, hinit]
     simp [IDc.di, DI.info, DI.raw, hi, td_eq]
 
+/-! ## the init-declarator list -/
+
+def restFlat : List IDc → List Tk
+  | [] => []
+  | it :: r => ("COMMA", ",") :: (it.flat ++ restFlat r)
+
+def restNtoks : List IDc → Nat
+  | [] => 0
+  | it :: r => 1 + it.ntoks + restNtoks r
+
+def restFuel : List IDc → Nat
+  | [] => 1
+  | it :: r => max it.fuel (restFuel r) + 1
+
+/-- the `_DeclInfo`s of the declarators after the first (`n`: position of the first comma) -/
+def restDIs : Nat → List IDc → List DI
+  | _, [] => []
+  | n, it :: r => it.di (n + 1) :: restDIs (n + 1 + it.ntoks) r
+
+theorem restFlat_head (its : List IDc) (rest : List Tk) :
+    ∃ k v r, restFlat its ++ ("SEMI", ";") :: rest = (k, v) :: r ∧ EndsItem k := by
+  cases its with
+  | nil => exact ⟨_, _, _, rfl, .inr rfl⟩
+  | cons it r => exact ⟨_, _, _, rfl, .inl rfl⟩
+
+/-- **`_parse_init_declarator_list`** (the part after the first declarator) -/
+theorem initList_loop : ∀ (its : List IDc) (acc : List DeclInfo) (s : PState) (rest : List Tk) (F : Nat),
+    (∀ it ∈ its, WFI it) → SeesT env s (restFlat its ++ ("SEMI", ";") :: rest) → restFuel its ≤ F →
+    ∃ s', run F (.initDeclaratorListLoop acc false) s = .ok (acc ++ (restDIs s.idx its).map DI.info) s' ∧
+      SeesT env s' (("SEMI", ";") :: rest) ∧ s'.idx = s.idx + restNtoks its
+  | [], acc, s, rest, F, _, hs, hF => by
+    obtain ⟨G, rfl⟩ : ∃ G, F = G + 1 := ⟨F - 1, by simp only [restFuel] at hF; omega⟩
+    have hs0 : SeesT env s (("SEMI", ";") :: rest) := by simpa [restFlat] using hs
+    obtain ⟨s1, h1, hs1, hi1⟩ := accept_other s _ "COMMA" hs0 (by
+      intro k v r h; simp only [List.cons.injEq, Prod.mk.injEq] at h; rw [← h.1.1]; decide)
+    refine ⟨s1, ?_, hs1, by simpa [restNtoks] using hi1⟩
+    show pInitDeclaratorListLoop (run G) acc false s = _
+    simp [pInitDeclaratorListLoop, DeclSkel.bnd, h1, DeclSkel.pur, restDIs]
+  | it :: its, acc, s, rest, F, hwf, hs, hF => by
+    obtain ⟨G, rfl⟩ : ∃ G, F = G + 1 := ⟨F - 1, by simp only [restFuel] at hF; omega⟩
+    simp only [restFuel] at hF
+    have hs0 : SeesT env s (("COMMA", ",") :: (it.flat ++ (restFlat its ++ ("SEMI", ";") :: rest))) := by
+      simpa [restFlat, List.append_assoc] using hs
+    obtain ⟨s1, h1, hs1, hi1, _⟩ := accept_same s "COMMA" "," _ hs0
+    obtain ⟨k, v, r, hhd, hend⟩ := restFlat_head its rest
+    rw [hhd] at hs1
+    obtain ⟨s2, h2, hs2, hi2⟩ := initDeclarator_ok it (hwf it List.mem_cons_self) s1 (k, v) r hend hs1 G (by omega)
+    rw [← hhd] at hs2
+    obtain ⟨s3, h3, hs3, hi3⟩ := initList_loop its (acc ++ [(it.di s1.idx).info]) s2 rest G
+      (fun it' h' => hwf it' (List.mem_cons_of_mem _ h')) hs2 (by omega)
+    refine ⟨s3, ?_, hs3, by simp only [restNtoks]; omega⟩
+    have e1 : s1.idx = s.idx + 1 := hi1
+    have e2 : s2.idx = s.idx + 1 + it.ntoks := by omega
+    rw [e2] at h3
+    rw [e1] at h2 h3
+    show pInitDeclaratorListLoop (run G) acc false s = _
+    simp [pInitDeclaratorListLoop, DeclSkel.bnd, h1, h2, h3, DeclSkel.pur, restDIs]
+
+/-! ## what the specifier loop has collected -/
+
+def typeNames : Nat → List Tk → List (String × Option Coord)
+  | _, [] => []
+  | n, t :: r => if isTypeTok t then (t.2, tc n) :: typeNames (n + 1) r else typeNames (n + 1) r
+
+theorem addTok_type (n : Nat) (sp : DeclSpec) (t : Tk) (saw : Bool)
+    (h : t.1 ∈ quals3 ∨ t.1 ∈ storage5 ∨ t.1 ∈ functionSpec ∨ t.1 ∈ typeSpecSimple ∨ (t.1 = "TYPEID" ∧ saw = false)) :
+    (addTok n sp t).type = sp.type ++ typeNodes (if isTypeTok t then [(t.2, tc n)] else []) := by
+  obtain ⟨k, v⟩ := t
+  rcases h with h | h | h | h | h
+  · have f1 := quals3_facts k h
+    have : isTypeTok (k, v) = false := by
+      revert h; simp only [isTypeTok, quals3]; intro h
+      simp only [List.mem_cons, List.not_mem_nil, or_false] at h
+      rcases h with rfl | rfl | rfl <;> decide
+    simp [addTok, f1, this, typeNodes]
+  · obtain ⟨f1, f2⟩ := storage5_facts k h
+    have : isTypeTok (k, v) = false := by
+      revert h; simp only [isTypeTok, storage5]; intro h
+      simp only [List.mem_cons, List.not_mem_nil, or_false] at h
+      rcases h with rfl | rfl | rfl | rfl | rfl <;> decide
+    simp [addTok, f1, f2, this, typeNodes]
+  · obtain ⟨f1, f2⟩ := funcspec_facts k h
+    have : isTypeTok (k, v) = false := by
+      revert h; simp only [isTypeTok, functionSpec]; intro h
+      simp only [List.mem_cons, List.not_mem_nil, or_false] at h
+      rcases h with rfl | rfl <;> decide
+    simp [addTok, f1, f2, h, this, typeNodes]
+  · obtain ⟨f1, f2, f3⟩ := tkw_facts k h
+    have : isTypeTok (k, v) = true := by simp [isTypeTok, h]
+    simp [addTok, f1, f2, f3, this, typeNodes]
+  · obtain ⟨rfl, _⟩ := h
+    obtain ⟨f1, f2, f3, f4⟩ := typeid_facts
+    simp [addTok, f1, f2, f3, isTypeTok, typeNodes]
+
+theorem foldSpec_type : ∀ (l : List Tk) (n : Nat) (sp : DeclSpec) (saw : Bool), SpecToks saw l →
+    (foldSpec n sp l).type = sp.type ++ typeNodes (typeNames n l)
+  | [], n, sp, saw, _ => by simp [foldSpec, typeNames, typeNodes]
+  | t :: r, n, sp, saw, h => by
+    obtain ⟨h1, h2⟩ := h
+    rw [foldSpec, foldSpec_type r (n + 1) _ _ h2, addTok_type n sp t saw h1]
+    cases ht : isTypeTok t <;> simp [typeNames, ht, typeNodes]
+
+theorem typeNames_ne_nil : ∀ (l : List Tk) (n : Nat) (saw : Bool), sawAfter saw l = true → saw = false → typeNames n l ≠ []
+  | [], n, saw, h, hs => by simp [sawAfter] at h; rw [h] at hs; cases hs
+  | t :: r, n, saw, h, hs => by
+    subst hs
+    simp only [sawAfter, Bool.false_or] at h
+    cases ht : isTypeTok t with
+    | true => simp [typeNames, ht]
+    | false =>
+      rw [ht] at h
+      simp only [typeNames, ht, Bool.false_eq_true, ↓reduceIte]
+      exact typeNames_ne_nil r (n + 1) false h rfl
+
+/-- the spellings of the specifier tokens say nothing else than their classes: no `typedef`
+storage class, no `_Atomic` qualifier (the fragment has neither) -/
+def SpecVals (l : List Tk) : Prop := ∀ t ∈ l, t.2 ≠ "typedef" ∧ t.2 ≠ "_Atomic"
+
+theorem addTok_storage_mem (n : Nat) (sp : DeclSpec) (t : Tk) (v : Val) (h : v ∈ (addTok n sp t).storage) :
+    v ∈ sp.storage ∨ v = .str t.2 := by
+  unfold addTok at h
+  split at h
+  · exact .inl h
+  · split at h
+    · simp only [List.mem_append, List.mem_singleton] at h; exact h
+    · split at h <;> exact .inl h
+
+theorem addTok_qual_mem (n : Nat) (sp : DeclSpec) (t : Tk) (v : Val) (h : v ∈ (addTok n sp t).qual) :
+    v ∈ sp.qual ∨ v = .str t.2 := by
+  unfold addTok at h
+  split at h
+  · simp only [List.mem_append, List.mem_singleton] at h; exact h
+  · split at h
+    · exact .inl h
+    · split at h <;> exact .inl h
+
+theorem foldSpec_storage_mem : ∀ (l : List Tk) (n : Nat) (sp : DeclSpec) (v : Val), v ∈ (foldSpec n sp l).storage →
+    v ∈ sp.storage ∨ ∃ t ∈ l, v = .str t.2
+  | [], _, _, _, h => .inl h
+  | t :: r, n, sp, v, h => by
+    rcases foldSpec_storage_mem r (n + 1) _ v h with h' | ⟨t', ht', hv⟩
+    · rcases addTok_storage_mem n sp t v h' with h'' | h''
+      · exact .inl h''
+      · exact .inr ⟨t, List.mem_cons_self, h''⟩
+    · exact .inr ⟨t', List.mem_cons_of_mem _ ht', hv⟩
+
+theorem foldSpec_qual_mem : ∀ (l : List Tk) (n : Nat) (sp : DeclSpec) (v : Val), v ∈ (foldSpec n sp l).qual →
+    v ∈ sp.qual ∨ ∃ t ∈ l, v = .str t.2
+  | [], _, _, _, h => .inl h
+  | t :: r, n, sp, v, h => by
+    rcases foldSpec_qual_mem r (n + 1) _ v h with h' | ⟨t', ht', hv⟩
+    · rcases addTok_qual_mem n sp t v h' with h'' | h''
+      · exact .inl h''
+      · exact .inr ⟨t, List.mem_cons_self, h''⟩
+    · exact .inr ⟨t', List.mem_cons_of_mem _ ht', hv⟩
+
+/-- the collected specifiers meet what `_build_declarations` needs -/
+theorem specOK_fold (l : List Tk) (n : Nat) (hl : SpecToks false l) (hv : SpecVals l) (hsaw : sawAfter false l = true) :
+    ∃ p0 names, typeNames n l = p0 :: names ∧ SpecOK (foldSpec n {} l) p0 names := by
+  cases htn : typeNames n l with
+  | nil => exact absurd htn (typeNames_ne_nil l n false hsaw rfl)
+  | cons p0 names =>
+    refine ⟨p0, names, rfl, ?_, ?_, ?_⟩
+    · rw [foldSpec_type l n {} false hl, htn]; rfl
+    · simp only [specHasTypedef, List.any_eq_false]
+      intro v hvm
+      rcases foldSpec_storage_mem l n {} v hvm with h | ⟨t, ht, rfl⟩
+      · cases h
+      · have := (hv t ht).1
+        rw [Val.beq_str]; simpa using this
+    · simp only [List.any_eq_false]
+      intro v hvm
+      rcases foldSpec_qual_mem l n {} v hvm with h | ⟨t, ht, rfl⟩
+      · cases h
+      · have := (hv t ht).2
+        rw [Val.beq_str]; simpa using this
+
 end PycModel.DeclParse
